@@ -20,7 +20,7 @@ def key_kind(expr):
     return "str"
 
 
-def order_tree(rng, root, n_files=None):
+def order_tree(rng, root, n_files=None, extra=0):
     sizes = [5, 50, 500, 9, 90, 900, 1000, 1001, 10, 100, 7, 70, 0, 0, 5, 50]
     names = ["a", "b", "a.txt", "b.txt", "B.txt", "Z", "aa", "a10", "a9", "a.rs", "c.rs", "ä", "_x", "10", "9", "x.TXT"]
     dirs = ["", "d1", "d2", "d1/e", "d10"]
@@ -42,6 +42,12 @@ def order_tree(rng, root, n_files=None):
         nodes.append({"path": p, "kind": "file", "size": rng.choice(sizes),
                       "mtime": base + rng.choice([0, 1, 2, 3, 60, 61, 3600, 86400, 86401, 10 * 86400]),
                       "owner": (rng.choice([0, 1, 2, 10, 100]), rng.choice([0, 5, 50])),
+                      "mode": rng.choice([0o644, 0o600, 0o755])})
+    for i in range(extra):
+        d = rng.choice(dirs)
+        p = "x%05d.%s" % (i, rng.choice(["txt", "rs", "TXT", "c"]))
+        nodes.append({"path": p if not d else d + "/" + p, "kind": "file", "size": rng.choice(sizes + [i % 97, i]),
+                      "mtime": base + (i * 7) % 100000, "owner": (rng.choice([0, 1, 2, 10, 100]), rng.choice([0, 5, 50])),
                       "mode": rng.choice([0o644, 0o600, 0o755])})
     tree.materialise(root, nodes)
     return nodes
@@ -76,6 +82,9 @@ def gen_keys(rng, select_cols, max_keys=3):
     """Returns (order-by text, [key expr], [asc]) ; may use positional keys referring to select_cols."""
     n = rng.randint(1, max_keys)
     exprs = rng.sample(KEY_EXPRS, n)
+    if n >= 2 and rng.random() < 0.2:
+        # the same key twice (typically once by position, once spelled out): the repeat must not disturb the others
+        exprs[rng.randrange(1, n)] = exprs[0]
     parts, asc = [], []
     for i, e in enumerate(exprs):
         text = e
